@@ -157,6 +157,22 @@ Definition of_col_type (c : col) (v : cvalue) : Prop :=
   | _, _ => False
   end.
 
+(* ---------- float64 / float32 columns (REAL), abstractly: values are finite binary64 numbers, texts are decimal
+   spellings.  The payload number is parsed by json.Number.Float64 (strconv.ParseFloat), bound to a REAL cell, read
+   back as float64 and written by encoding/json (strconv.AppendFloat, shortest spelling that parses back, 'e' form
+   below 1e-6 and from 1e21); the client parses that text. *)
+Section Floats.
+  Variable F : Type.
+  Variable client_format server_format : F -> list N.
+  Variable parse_float : list N -> option F.      (* None: not a number, or out of range (1e999) -> the row is rejected *)
+  Variable sqlite_real : F -> F.
+  Definition float_roundtrip (f : F) : option F :=
+    match parse_float (client_format f) with
+    | Some g => parse_float (server_format (sqlite_real g))
+    | None => None
+    end.
+End Floats.
+
 (* ---------- one table name over time: the column type used for coercion comes from the schema cache ----------
    getColumnInfo caches the column list per (user, dsn, table, showRowID): the write handlers (InsertRows, UpdateRows) use
    the showRowID=false entry, ReadRows the showRowID=true entry.  TableCreate and DeleteTable purge the schema cache.
